@@ -286,7 +286,7 @@ Fixpoint run_checks (cs : list vcheck) (noise he : bool) (res val sd : pyval) : 
       if flag_ev (vc_guard c) noise he then
         match disj_ev (vc_disj c) res val sd with
         | TT => Some (vc_exn c, vc_tag c)
-        | TErr cls => Some (cls, "test-raises")
+        | TErr cls => Some (cls, vc_tag c)          (* the test itself raises: np.isfinite(None) ..., same place *)
         | TF => run_checks r noise he res val sd
         end
       else run_checks r noise he res val sd
